@@ -5,10 +5,13 @@ from typing import Any, Dict
 
 from .. import compare as cmp
 from ..core import Outcome, Prop
+from .component import COMPONENT, compare_c04 as _component
 from . import slices
 
 
 def compare(vec: Dict[str, Any], obs: Dict[str, Any]) -> Outcome:
+    if vec.get("kind") == "component":
+        return _component(vec, obs)
     oc = Outcome()
     runs = [("", obs)] if "kind" in obs else [(m + ": ", obs[m]) for m in ("eager", "lazy") if m in obs]
     inplace = bool(vec.get("opts", {}).get("inplace"))
@@ -40,7 +43,7 @@ def compare(vec: Dict[str, Any], obs: Dict[str, Any]) -> Outcome:
 PROP = Prop(
     id="C04",
     title="Validation never modifies the caller's data unless inplace=True",
-    slices=[slices.SERIES_PARSE, slices.FRAME_PARSE, slices.SERIES] + slices.FRAME_SLICES,
+    slices=[slices.SERIES_PARSE, slices.FRAME_PARSE, slices.SERIES, COMPONENT] + slices.FRAME_SLICES,
     compare=compare,
     rule=("The pipeline specification models aliasing explicitly (Preprocess sets aliased := inplace; every in-place stage "
           "writes through Write); TLC proves NoCallerMutation for every explored run. Each run is replayed with a deep "
